@@ -222,3 +222,42 @@ def r3(cx, rec):
 def r4(cx, rec):
     from rules import C17
     C17.finders_unmodified(cx, rec, (['announce'],))
+
+
+@TABLE.rule('5', 'K6', 'the announced port is the port the client listens on: every TcpListener::bind in the crate binds the same '
+            'compile-time constant the query\'s "port" parameter is built from', floor=2)
+def r5(cx, rec):
+    F = cx.F
+    # the announced constant
+    ann = None
+    for f in F.user_fns():
+        for bb in mirq.real_calls(f):
+            if (f.blocks[bb]['t'].get('callee') or '').endswith('RequestBuilder::query'):
+                for x in walk(f.expr_call(bb)[2][1]):
+                    if x[0] == 'agg' and x[1] == 'tuple' and len(x[4]) == 2 and x[4][0][1][0] == 'str' and x[4][0][1][1] == 'port':
+                        cs = [const_of(y) for y in walk(x[4][1][1]) if y[0] == 'const' and const_of(y) is not None]
+                        if len(cs) == 1:
+                            ann = cs[0]
+                            rec.site(f, bb, 'announced port: %s = %s' % (ann[1], ann[0]))
+    if ann is None:
+        raise AnchorMissing('the "port" query parameter is not built from one constant')
+    binds = []
+    for f in F.user_fns():
+        for bb in mirq.real_calls(f):
+            if (f.blocks[bb]['t'].get('callee') or '').endswith('TcpListener::bind'):
+                binds.append((f, bb))
+    if not binds:
+        raise AnchorMissing('no TcpListener::bind call: the client does not listen')
+    for f, bb in binds:
+        a = mirq.strip(f.expr_call(bb)[2][0])
+        a = mirq.init_of(a) if a[0] in ('var', 'mvar') else a
+        port = None
+        if a[0] == 'agg' and a[1] == 'tuple' and len(a[4]) == 2:
+            port = mirq.strip(a[4][1][1])
+            if port[0] == 'var':
+                port = mirq.strip(mirq.init_of(port))
+        c = const_of(port) if port is not None and port[0] == 'const' else None
+        rec.site(f, bb, 'listens on %s' % (show(port)[:60] if port is not None else show(a)[:60]))
+        rec.need(c is not None and c[0] == ann[0], 'listen-port-differs', f, bb,
+                 'the listener binds %s, which is not the constant %s (= %s) announced to the tracker: peers that learn the '
+                 'address from the tracker connect to a port the client does not listen on' % (show(port)[:60] if port is not None else show(a)[:60], ann[1], ann[0]))
